@@ -336,7 +336,12 @@ def judge(seed, H, ppart, trs, rsd, ranks, threads):
 
 
 def _bworker(t):
-    return judge(*t)
+    try:
+        return judge(*t)
+    except Exception as ex:      # noqa  no catalogue produced for a valid input (e.g. an empty particle table) breaks the property too
+        import traceback
+        tb = traceback.format_exc().strip().splitlines()
+        return f'hosts={t[1]} particles_per_host={t[2]} tracers={list(t[3])}: gen_gals raised {ex!r} ({tb[-3].strip() if len(tb) > 2 else ""})'
 
 
 def bounded(run, prop):
